@@ -105,7 +105,7 @@ def pow10Exact (mode : UInt8) (dNeg neg : Bool) (oSig dSig : U128) (dExp : Int16
 /-- the power-of-ten shortcut -/
 def pow10Path (mode : UInt8) (dNeg neg : Bool) (oSig : U128) (oExp : Int16) (dSig : U128) (dExp : Int16) :
     Go.GoM Decimal :=
-  if ((oSig.w1 != (0 : UInt64)) || (decide (oSig.w0 > (6111 : UInt64)))) = true then byK neg dExp
+  if ((oSig.w1 != (0 : UInt64)) || (decide (oSig.w0 > (12322 : UInt64)))) = true then byK neg dExp
   else if (oExp == (6176 : Int16)) = true then pow10Exact mode dNeg neg oSig dSig dExp 1
   else if (oExp == (6177 : Int16)) = true then pow10Exact mode dNeg neg oSig dSig dExp 10
   else if (oExp == (6178 : Int16)) = true then pow10Exact mode dNeg neg oSig dSig dExp 100
